@@ -241,6 +241,17 @@ BadPlacement(objs, ns) ==
   \cup {<<o.kind, "metadata.namespace">> : o \in {x \in objs : Workload(x) /\ x.mns \notin {"", ns}}}
 InNamespace(objs, ns) == BadPlacement(objs, ns) = {}
 
+\* After a Deploy, every workload object of the lease's namespace belongs to a service the CURRENT manifest names
+\* (deployment / service / ingress by their manifest-service label, a per-service policy by its name): a workload of
+\* a service the manifest no longer names runs on resources nothing is leased for and keeps its ports reachable.
+\* (A leftover policy is only counted while policies are enabled: with them disabled nothing prunes or enforces them.)
+SvcNames(svcs) == {svcs[i].name : i \in DOMAIN svcs}
+SvcLabelsOf(o) == {p[2] : p \in {q \in o.labels : q[1] = LSvc}}
+Leftovers(objs, ns, svcs, netpol) ==
+  {<<o.kind, o.name>> : o \in {x \in Mine(objs, ns) :
+      \/ x.kind \in {"deployment", "service", "ingress"} /\ SvcLabelsOf(x) \cap SvcNames(svcs) = {}
+      \/ x.kind = "netpol" /\ netpol /\ x.name # MainPolicy /\ x.name \notin {svcs[i].pol : i \in DOMAIN svcs}}}
+
 \* API calls that change or delete something outside the lease's namespace (calls: a set of recorded / modelled
 \* calls [verb, kind, ans, ...]). The akash Manifest CRD lives in the provider namespace by design.
 Mutating == {"create", "update", "patch", "delete", "delete-set", "delete-collection"}
@@ -526,6 +537,7 @@ InvPositive  == (Done /\ NMain = 1 /\ cur.rounds[1].st.netpol) => NetPositive(cl
 \* after a complete Deploy the namespace holds exactly one deployment per service of the last manifest
 InvComplete  == (todo = <<>> /\ Live) =>
                   {o.name : o \in {x \in Mine(cluster, NS(PhLease(rnd))) : x.kind = "deployment"}} = {PhRound(rnd).svcs[i].name : i \in DOMAIN PhRound(rnd).svcs}
+InvNoLeftovers == (todo = <<>> /\ Live) => Leftovers(cluster, NS(PhLease(rnd)), PhRound(rnd).svcs, PhRound(rnd).st.netpol) = {}
 \* after teardown nothing of the main lease is left, and the neighbour is untouched
 InvTornDown  == ~Live => Mine(cluster, Ns1) = {}
 \* deploying or tearing down one lease never changes what belongs to another
